@@ -35,14 +35,6 @@ def gen_cfg(depth: int, part: int, parts: int) -> str:
             "INVARIANT GenInv\nINVARIANT Laws\nCHECK_DEADLOCK FALSE\n")
 
 
-def gen_job(jobs):
-    out = []
-    for depth, part, parts in jobs:
-        r = tlc("Gen_Unparse", "g.cfg", cfg_text=gen_cfg(depth, part, parts), workers=1, timeout=3000)
-        out.append((r.distinct, r.generated, r.wall, r.cases))
-    return out
-
-
 # ---------------------------------------------------------------------------
 # the real chain
 # ---------------------------------------------------------------------------
@@ -70,130 +62,166 @@ def sub_values(root):
     return out
 
 
-def chain_chunk(chunk):
-    """chunk: [(idx, text)] -> [(idx, record)], {key: sub-record}"""
-    common.use_repo()
-    out = []
+def chain(ctx, text, subs, idx):
+    """parse -> node_to_wikitext -> parse -> node_to_wikitext -> parse, dumped structurally;
+    new directly-passable values of the first tree are added to `subs`."""
+    r1 = ptree2.parse(ctx, text)
+    w1 = ctx.node_to_wikitext(r1)
+    r2 = ptree2.parse(ctx, w1)
+    w2 = ctx.node_to_wikitext(r2)
+    r3 = ptree2.parse(ctx, w2)
+    rec = {"t1": ptree2.node(r1), "w1": ptree2.atoms(w1), "t2": ptree2.node(r2), "w2": ptree2.atoms(w2), "t3": ptree2.node(r3)}
+    if subs is not None:
+        for x in sub_values(r1):
+            ax = ptree2.general(x)
+            key = common.json_key(ax)
+            if key in subs:
+                continue
+            w = ctx.node_to_wikitext(x)
+            subs[key] = {"x": ax, "w": ptree2.atoms(w), "t": ptree2.node(ptree2.parse(ctx, w)), "from": idx}
+    return rec
+
+
+def trace_batch(known, cases, subs):
+    """cases: [(idx, rec)], subs: [(key, rec)] -> verdict lists keyed by idx / key."""
+    with Scratch("c19t-") as d:
+        tf = d / "batch.json"
+        tf.write_text(json.dumps({"known": known, "cases": [c for _, c in cases],
+                                  "subs": [{"x": s["x"], "w": s["w"], "t": s["t"]} for _, s in subs]}))
+        r = tlc("Trace_Unparse", "t.cfg", cfg_text=TRACE_CFG, workers=1, timeout=3000, env={"TRACE_FILE": str(tf)})
+    v = r.tagged("VERDICT")
+    if not v or v[0]["cases"] != len(cases) or v[0]["subs"] != len(subs):
+        raise common.TLCError("Trace_Unparse did not consume its batch")
+    v = v[0]
+    return {
+        "tlc": (r.distinct, r.generated, r.wall),
+        "eligible": v["eligible"],
+        "bad": [(cases[b["i"] - 1][0], b) for b in v["bad"]],
+        "drift": [(cases[b["i"] - 1][0], b) for b in v["drift"]],
+        "subbad": [(subs[b["j"] - 1][0], b) for b in v["subbad"]],
+        "subdrift": [(subs[b["j"] - 1][0], b) for b in v["subdrift"]],
+    }
+
+
+def judge_texts(texts, known, summ, chunk_size=400):
+    """texts: [(label, text)].  Real chain for each, TLC verdicts, results added to summ."""
+    recs = {}
     subs = {}
     with Scratch("c19-") as d:
         ctx = ptree2.new_ctx(d)
         try:
-            for idx, text in chunk:
+            for i, (label, text) in enumerate(texts):
                 try:
-                    r1 = ptree2.parse(ctx, text)
-                    w1 = ctx.node_to_wikitext(r1)
-                    r2 = ptree2.parse(ctx, w1)
-                    w2 = ctx.node_to_wikitext(r2)
-                    r3 = ptree2.parse(ctx, w2)
-                    rec = {"t1": ptree2.node(r1), "w1": ptree2.atoms(w1), "t2": ptree2.node(r2),
-                           "w2": ptree2.atoms(w2), "t3": ptree2.node(r3)}
-                    for x in sub_values(r1):
-                        ax = ptree2.general(x)
-                        key = common.json_key(ax)
-                        if key in subs:
-                            continue
-                        w = ctx.node_to_wikitext(x)
-                        subs[key] = {"x": ax, "w": ptree2.atoms(w), "t": ptree2.node(ptree2.parse(ctx, w)), "from": idx}
+                    recs[i] = chain(ctx, text, subs, i)
                 except Exception as e:  # noqa: BLE001
-                    rec = {"exception": repr(e)}
-                out.append((idx, rec))
+                    summ["exceptions"].append({"origin": label, "text": text, "exception": repr(e)})
         finally:
             ctx.db_conn.close()
-    return [(out, subs)]
+    summ["n"] += len(texts)
+    cases = sorted(recs.items())
+    for _, rec in cases:
+        summ["shapes"].add(ptree2.shape(rec["t1"]))
+        count_arms(rec["t1"], summ["arms"])
+    sublist = sorted(subs.items())
+    summ["subs"] += len(sublist)
+    nb = max(1, (len(cases) + chunk_size - 1) // chunk_size)
+    per = (len(sublist) + nb - 1) // nb if sublist else 0
+    for b in range(nb):
+        r = trace_batch(known, cases[b * chunk_size:(b + 1) * chunk_size], sublist[b * per:(b + 1) * per] if per else [])
+        summ["trace"][0] += r["tlc"][0]
+        summ["trace"][1] += r["tlc"][1]
+        summ["trace"][2] += r["tlc"][2]
+        summ["eligible"] += r["eligible"]
+        for i, bd in r["bad"]:
+            label, text = texts[i]
+            rec = recs[i]
+            first = not bd["e12"]
+            got, ref = (rec["t2"], rec["t1"]) if first else (rec["t3"], rec["t2"])
+            link = bd["links"][0] != bd["links"][1] or bd["links"][1] != bd["links"][2]
+            summ["bad"].append({
+                "case": {"origin": label, "text": text, "wikitext1": ptree2.concretise(rec["w1"]),
+                         "wikitext2": ptree2.concretise(rec["w2"]), "before": ptree2.show(ref), "after": ptree2.show(got),
+                         "link_nodes": bd["links"]},
+                "why": ("first round trip" if first else "second round trip (not a fixed point)") + f" of {text!r} is not equivalent"
+                       + (" (number of LINK nodes changed)" if link else ""),
+                "devs": sorted(bd["devs"]),
+                "cls": ("rt1 " if first else "rt2 ") + label.rsplit("/", 1)[0] + (" LINK-count" if link else "")})
+        for i, bd in r["drift"]:
+            summ["drift"] += 1
+            if len(summ["drift_samples"]) < 2:
+                summ["drift_samples"].append({"text": texts[i][1], "real": ptree2.concretise(recs[i]["w%d" % bd["which"]]),
+                                              "model": ptree2.concretise(bd["model"])})
+        for k, bd in r["subbad"]:
+            sv = subs[k]
+            summ["bad"].append({
+                "case": {"origin": "direct", "value": ptree2.show(sv["x"]["list"] if "list" in sv["x"] else sv["x"]),
+                         "wikitext": ptree2.concretise(sv["w"]), "after": ptree2.show(sv["t"]),
+                         "from_document": texts[sv["from"]][1]},
+                "why": f"node_to_wikitext of a directly passed value re-parses differently: {ptree2.concretise(sv['w'])!r}",
+                "devs": sorted(bd["devs"]),
+                "cls": "direct " + ("list" if "list" in sv["x"] else sv["x"].get("kind", "string"))})
+        for k, bd in r["subdrift"]:
+            summ["drift"] += 1
+            if len(summ["drift_samples"]) < 2:
+                summ["drift_samples"].append({"direct": ptree2.concretise(subs[k]["w"]), "model": ptree2.concretise(bd["model"])})
+    if cases and summ["sample"] is None:
+        i, rec = cases[len(cases) // 2]
+        summ["sample"] = {"document": texts[i][1], "to_wikitext": ptree2.concretise(rec["w1"])}
 
 
-def trace_chunk(chunk):
+def count_arms(t, arms):
+    if "s" in t:
+        return
+    arms[t["kind"]] = arms.get(t["kind"], 0) + 1
+    for a in t["largs"] + t["defn"] + [t["children"]]:
+        for x in a:
+            count_arms(x, arms)
+
+
+def new_summary():
+    return {"n": 0, "gen": [0, 0, 0.0], "trace": [0, 0, 0.0], "fam": {}, "shapes": set(), "arms": {}, "subs": 0, "eligible": 0,
+            "bad": [], "drift": 0, "drift_samples": [], "exceptions": [], "sample": None}
+
+
+def pipeline_job(jobs):
+    """One worker: TLC enumerates its share of the documents, the real chain runs on each text,
+    TLC judges the recorded round trips.  Only a summary travels back."""
+    common.use_repo()
     out = []
-    for known, cases, subs in chunk:
-        with Scratch("c19t-") as d:
-            tf = d / "batch.json"
-            tf.write_text(json.dumps({"known": known, "cases": [c for _, c in cases], "subs": [s for _, s in subs]}))
-            r = tlc("Trace_Unparse", "t.cfg", cfg_text=TRACE_CFG, workers=1, timeout=3000, env={"TRACE_FILE": str(tf)})
-        v = r.tagged("VERDICT")
-        if not v or v[0]["cases"] != len(cases) or v[0]["subs"] != len(subs):
-            raise common.TLCError("Trace_Unparse did not consume its batch")
-        v = v[0]
-        out.append({
-            "tlc": (r.distinct, r.generated, r.wall),
-            "eligible": v["eligible"],
-            "bad": [(cases[b["i"] - 1][0], b) for b in v["bad"]],
-            "drift": [(cases[b["i"] - 1][0], b) for b in v["drift"]],
-            "subbad": [(subs[b["j"] - 1][0], b) for b in v["subbad"]],
-            "subdrift": [(subs[b["j"] - 1][0], b) for b in v["subdrift"]],
-        })
+    for job in jobs:
+        summ = new_summary()
+        if job[0] == "gen":
+            _, depth, part, parts, known = job
+            g = tlc("Gen_Unparse", "g.cfg", cfg_text=gen_cfg(depth, part, parts), workers=1, timeout=3000)
+            summ["gen"] = [g.distinct, g.generated, g.wall]
+            texts = []
+            seen = set()
+            for c in g.cases:
+                summ["fam"][c["fam"]] = summ["fam"].get(c["fam"], 0) + 1
+                for style in ("w", "u"):
+                    t = ptree2.concretise(c[style])
+                    if t not in seen:
+                        seen.add(t)
+                        texts.append((f"G:{c['fam']}/{c['ctx']}/{style}", t))
+        else:
+            _, texts, known = job
+        judge_texts(texts, known, summ)
+        out.append(summ)
     return out
 
 
-def diff_kinds(a, b) -> str:
-    ka, kb = ptree2.kinds(a), ptree2.kinds(b)
-    if ka == kb:
-        return "same kinds"
-    return "-" + ",".join(sorted(ka - kb)) + " +" + ",".join(sorted(kb - ka))
-
-
-def validate(o: Outcome, texts: list, known: list, chunk_size: int = 400):
-    """texts: [(label, text)].  Runs the chain and lets TLC judge."""
-    res = pmap(chain_chunk, list(enumerate(t for _, t in texts)))
-    recs = {}
-    subs = {}
-    for out, sb in res:
-        recs.update(dict(out))
-        for k, v in sb.items():
-            subs.setdefault(k, v)
-    cases = []
-    for i, (label, text) in enumerate(texts):
-        o.evaluations += 1
-        rec = recs[i]
-        if "exception" in rec:
-            o.violation({"origin": label, "text": text}, f"round trip of {text!r} raised {rec['exception']}", cls="exception")
-            continue
-        cases.append((i, rec))
-        o.shape(ptree2.shape(rec["t1"]))
-    sublist = [(k, {"x": v["x"], "w": v["w"], "t": v["t"]}) for k, v in sorted(subs.items())]
-    nb = max(1, (len(cases) + chunk_size - 1) // chunk_size)
-    per = (len(sublist) + nb - 1) // nb if sublist else 0
-    batches = []
-    for b in range(nb):
-        batches.append((known, cases[b * chunk_size:(b + 1) * chunk_size], sublist[b * per:(b + 1) * per] if per else []))
-    results = pmap(trace_chunk, batches, chunk=1)
-    tot = common.TLCResult("", 0, 0.0)
-    eligible = 0
-    for r in results:
-        tot.distinct += r["tlc"][0]
-        tot.generated += r["tlc"][1]
-        tot.wall = max(tot.wall, r["tlc"][2])
-        eligible += r["eligible"]
-    o.add_tlc(f"Trace_Unparse x{len(batches)}", tot)
-    o.traces += len(cases) + eligible
-    o.evaluations += eligible
-    o.extra["direct_values_recorded"] = o.extra.get("direct_values_recorded", 0) + len(sublist)
-    o.extra["direct_values_self_contained"] = o.extra.get("direct_values_self_contained", 0) + eligible
-    for r in results:
-        for i, b in r["bad"]:
-            label, text = texts[i]
-            rec = recs[i]
-            which = "first round trip" if not b["e12"] else "second round trip (not a fixed point)"
-            got, ref = (rec["t2"], rec["t1"]) if not b["e12"] else (rec["t3"], rec["t2"])
-            link = b["links"][0] != b["links"][1] or b["links"][1] != b["links"][2]
-            case = {"origin": label, "text": text, "wikitext1": ptree2.concretise(rec["w1"]),
-                    "wikitext2": ptree2.concretise(rec["w2"]), "before": ptree2.show(ref), "after": ptree2.show(got),
-                    "link_nodes": b["links"]}
-            why = f"{which} of {text!r} is not equivalent" + (" (number of LINK nodes changed)" if link else "")
-            o.classify(case, why, sorted(b["devs"]), cls=("rt1 " if not b["e12"] else "rt2 ") + label.rsplit("/", 1)[0] + (" LINK-count" if link else ""))
-        for i, b in r["drift"]:
-            rec = recs[i]
-            o.note_drift({"text": texts[i][1], "real": ptree2.concretise(rec["w%d" % b["which"]]),
-                          "model": ptree2.concretise(b["model"])})
-        for k, b in r["subbad"]:
-            s = subs[k]
-            case = {"origin": "direct", "value": ptree2.show(s["x"]["list"] if "list" in s["x"] else s["x"]),
-                    "wikitext": ptree2.concretise(s["w"]), "after": ptree2.show(s["t"]),
-                    "from_document": texts[s["from"]][1]}
-            o.classify(case, f"node_to_wikitext of a directly passed value re-parses differently: {ptree2.concretise(s['w'])!r}",
-                       sorted(b["devs"]), cls="direct " + ("list" if "list" in s["x"] else s["x"].get("kind", "string")))
-        for k, b in r["subdrift"]:
-            o.note_drift({"direct": ptree2.concretise(subs[k]["w"]), "model": ptree2.concretise(b["model"])})
-    return recs
+def absorb(o: Outcome, summ):
+    o.evaluations += summ["n"] + summ["eligible"]
+    o.traces += summ["n"] - len(summ["exceptions"]) + summ["eligible"]
+    for sh in summ["shapes"]:
+        o.shape(sh)
+    for e in summ["exceptions"]:
+        o.violation({"origin": e["origin"], "text": e["text"]}, f"round trip of {e['text']!r} raised {e['exception']}", cls="exception")
+    for b in summ["bad"]:
+        o.classify(b["case"], b["why"], b["devs"], cls=b["cls"])
+    o.drift_count += max(0, summ["drift"] - len(summ["drift_samples"]))
+    for dsm in summ["drift_samples"]:
+        o.note_drift(dsm)
 
 
 # ---------------------------------------------------------------------------
@@ -224,35 +252,15 @@ def run(tier: str) -> int:
     ]
     known = sorted(o.known)
     depth = 4 if thorough else 3
-    parts = 16 if thorough else 4
-    res = pmap(gen_job, [(depth, p, parts) for p in range(parts)], chunk=1)
-    tot = common.TLCResult("", 0, 0.0)
-    docs = []
-    for distinct, generated, wall, cases in res:
-        tot.distinct += distinct
-        tot.generated += generated
-        tot.wall = max(tot.wall, wall)
-        docs += cases
-    o.add_tlc(f"Gen_Unparse[depth {depth}] laws+documents x{parts}", tot)
-    fam = {}
-    texts = []
-    seen = set()
-    for c in docs:
-        fam[c["fam"]] = fam.get(c["fam"], 0) + 1
-        for style in ("w", "u"):
-            t = ptree2.concretise(c[style])
-            if t not in seen:
-                seen.add(t)
-                texts.append((f"G:{c['fam']}/{c['ctx']}/{style}", t))
-    texts += EXTRA_DOCS
-    o.extra["documents_per_family"] = fam
-    # M: the round trip inside the model (twin of the table / HTML / call fragment), with coverage
+    parts = 48 if thorough else 12
+    jobs = [("gen", depth, p, parts, known) for p in range(parts)] + [("texts", EXTRA_DOCS, known)]
+    # M: the round trip inside the model (twin of the table / HTML / call fragment)
     with Scratch("c19m-") as d:
         import c03
 
         tags_file = str(d / "tags.json")
         Path(tags_file).write_text(json.dumps(c03.tag_table()))
-        mc = tlc("MC_Unparse", "MC_Unparse_T.cfg" if thorough else "MC_Unparse_Q.cfg", workers=16, timeout=3000,
+        mc = tlc("MC_Unparse", "MC_Unparse_T.cfg" if thorough else "MC_Unparse_Q.cfg", workers=4, timeout=3000,
                  env={"TAGS_FILE": tags_file})
         o.add_tlc("MC_Unparse in-model round trip", mc)
         demo = tlc("MC_Unparse", "Demo_Unparse_asis.cfg", workers=1, check=False, env={"TAGS_FILE": tags_file})
@@ -260,26 +268,35 @@ def run(tier: str) -> int:
         o.extra["demo_asis_counterexample"] = bool(demo.invariant_violated)
         if not demo.invariant_violated:
             raise common.TLCError("Demo_Unparse_asis lost its counterexample")
-    recs = validate(o, texts, known)
-    o.exhaustive = True
+    res = pmap(pipeline_job, jobs, chunk=1)
+    gen = common.TLCResult("", 0, 0.0)
+    tr = common.TLCResult("", 0, 0.0)
+    fam, arms = {}, {}
+    subs = eligible = 0
+    for summ in res:
+        gen.distinct += summ["gen"][0]
+        gen.generated += summ["gen"][1]
+        gen.wall = max(gen.wall, summ["gen"][2])
+        tr.distinct += summ["trace"][0]
+        tr.generated += summ["trace"][1]
+        tr.wall = max(tr.wall, summ["trace"][2])
+        for k, v in summ["fam"].items():
+            fam[k] = fam.get(k, 0) + v
+        for k, v in summ["arms"].items():
+            arms[k] = arms.get(k, 0) + v
+        subs += summ["subs"]
+        eligible += summ["eligible"]
+        absorb(o, summ)
+        if summ["sample"]:
+            o.sample(summ["sample"], cap=4)
+    o.add_tlc(f"Gen_Unparse[depth {depth}] laws+documents x{parts}", gen)
+    o.add_tlc("Trace_Unparse (all batches)", tr)
+    o.extra["documents_per_family"] = fam
+    o.extra["direct_values_recorded"] = subs
+    o.extra["direct_values_self_contained"] = eligible
     # which arms of the transcribed emitter were exercised: node kinds of the serialised trees
-    arms = {}
-
-    def count(t):
-        if "s" in t:
-            return
-        arms[t["kind"]] = arms.get(t["kind"], 0) + 1
-        for a in t["largs"] + t["defn"] + [t["children"]]:
-            for x in a:
-                count(x)
-
-    for r in recs.values():
-        if "t1" in r:
-            count(r["t1"])
     o.extra["action_coverage"] = dict(sorted(arms.items()))
-    for i in (0, len(texts) // 3, 2 * len(texts) // 3):
-        if i in recs and "w1" in recs[i]:
-            o.sample({"document": texts[i][1], "to_wikitext": ptree2.concretise(recs[i]["w1"])})
+    o.exhaustive = True
     return o.finish()
 
 
@@ -287,16 +304,17 @@ def replay(path: str) -> int:
     v = json.loads(Path(path).read_text())
     c = v["case"]
     o = Outcome(PID, "quick")
-    if "text" not in c:
-        print(json.dumps(c, indent=1)[:3000])
-        return 1
-    validate(o, [("replay", c["text"])], [])
+    o.known = {}
+    text = c.get("text") or c.get("from_document")
+    summ = new_summary()
+    judge_texts([("replay", text)], [], summ)
+    absorb(o, summ)
     for x in o.violations:
         print("still failing:", x["why"])
         print("before:\n" + x["case"].get("before", ""))
         print("after:\n" + x["case"].get("after", ""))
     if not o.violations:
-        print("round trip of", repr(c["text"]), "is now equivalent")
+        print("round trip of", repr(text), "(and of its directly passed parts) is now equivalent")
     return 1 if o.violations else 0
 
 
@@ -310,7 +328,7 @@ def selftest() -> int:
     text = "== h1 ==\n{| class=\"a-b\"\n|-\n| id=\"x1\" | ''a1 b1'' [[l|x1]]\n|}\n* a1 [[ b1\n"
     with Scratch("c19s-") as d:
         ctx = ptree2.new_ctx(d)
-        (_, rec), = chain_chunk([(0, text)])[0][0]
+        rec = chain(ctx, text, None, 0)
         ctx.db_conn.close()
 
     def find(t, kind):
@@ -339,7 +357,7 @@ def selftest() -> int:
     v["t3"]["children"].append({"s": ["NL", "NL"]})
     find(v["t3"], "TABLE_CELL")["children"].insert(0, {"s": ["NL", "SP"]}) if "s" not in find(v["t3"], "TABLE_CELL")["children"][0] else None
     variants.append(("extra blank lines at block boundaries in t3", v, False))
-    res = trace_chunk([([], [(i, r) for i, (_, r, _) in enumerate(variants)], [])])[0]
+    res = trace_batch([], [(i, r) for i, (_, r, _) in enumerate(variants)], [])
     bad = {i for i, _ in res["bad"]}
     ok = True
     for i, (name, _, expect_bad) in enumerate(variants):
